@@ -18,6 +18,20 @@ class IntSub(int):
     """A plain int subclass (not an enum): hashes and compares like its value."""
 
 
+class LoudInt(int):
+    """An int subclass whose OWN rendering differs from its value (a `class Port(int, Enum)` member in f-strings) while it hashes and
+    compares like the plain int - so it shares lru keys with it."""
+
+    def __str__(self):
+        return "<LoudInt.__str__>"
+
+    def __format__(self, spec):
+        return "<LoudInt.__format__>"
+
+    def __repr__(self):
+        return "<LoudInt %d>" % int(self)
+
+
 class FloatSub(float):
     pass
 
@@ -49,6 +63,8 @@ def enc_arg(x):
         return {"t": "strsub", "v": str.__str__(x)}
     if type(x) is IntSub:
         return {"t": "intsub", "v": str(int(x))}
+    if type(x) is LoudInt:
+        return {"t": "loudint", "v": int.__repr__(x)}
     if type(x) is FloatSub:
         return {"t": "floatsub", "v": repr(float(x))}
 
@@ -86,6 +102,8 @@ def dec_arg(x):
             return StrSub(x["v"])
         if t == "intsub":
             return IntSub(x["v"])
+        if t == "loudint":
+            return LoudInt(x["v"])
         if t == "floatsub":
             return FloatSub(x["v"])
         if t == "float":
